@@ -5,9 +5,12 @@ SEC = 10**9
 STRATS = ["round_robin", "least_connections", "weighted_round_robin", "ip_hash", "ip_hash_consistent"]
 XFF = ["-", "-", "-", "10.0.0.1", "10.0.0.2", "10.0.0.1, 10.9.9.9", " 10.0.0.3 ", ",1.2.3.4", "2001:db8::1", "junk value",
        "10.0.0.1,", " 10.0.0.4 ", "a" * 40, "10.0.0.1 ,x"]
-XRI = ["-", "-", "-", "192.168.1.1", "192.168.1.2", " spaced ", "x,y"]
+XRI = ["-", "-", "-", "192.168.1.1", "192.168.1.2", " spaced ", "x,y", "client-c.corp.example", "unknown"]
 REMOTE = ["10.1.2.3:4567", "10.1.2.3:9999", "10.1.2.4:4567", "[::1]:80", "[2001:db8::2]:443", "nonsense", "1.2.3.4",
           "::1", "[::1]", "a:b:c", "host:", ":80", "[::1]:80:90"]
+# what is attributed need not be an address: host names, "unknown", ids, address:port, separators only
+XFF += ["client-a.corp.example", "client-b.corp.example", "unknown", "198.51.100.7:51234", "_hidden8f2", ",", ", ,", ",,"]
+XRI += ["client-c.corp.example", "unknown"]
 OUTCOMES = ["200", "200", "200", "204", "404", "500", "503", "502", "unreach", "abort"]
 
 
